@@ -110,6 +110,59 @@ func runProbes(t *testing.T, c *ev.Collector) {
 			expectInt(3, "SCAN", "k", "CURSOR", "2", "COUNT"),
 		)
 	})
+	// fixed 397446d: a NaN field was "equal" to every number
+	probe(t, c, findNaN, func() string {
+		must(t, "FLUSHDB")
+		must(t, "SET", "k", "n", "FIELD", "g", "NaN", "POINT", "1", "1")
+		must(t, "SET", "k", "p", "FIELD", "g", "15", "POINT", "1", "1")
+		must(t, "SET", "k", "q", "FIELD", "g", "3", "POINT", "1", "1")
+		return first(
+			expectIDs([]string{"p"}, "SCAN", "k", "WHERE", "g", "10", "20", "IDS"),
+			expectIDs([]string{"q"}, "SCAN", "k", "WHERE", "g", "==", "3", "IDS"),
+			expectIDs([]string{"n", "q"}, "SCAN", "k", "WHERE", "g", "!=", "15", "IDS"),
+			expectIDs([]string{}, "SCAN", "k", "WHEREIN", "g", "2", "1", "2", "IDS"),
+			expectIDs([]string{"n"}, "SCAN", "k", "WHEREIN", "g", "2", "nan", "2", "IDS"),
+			expectIDs([]string{"n"}, "SCAN", "k", "WHERE", "g", "==", "NaN", "IDS"),
+			expectIDs([]string{"n"}, "SCAN", "k", "WHERE", "g", "<", "-inf", "IDS"),
+			expectIDs([]string{"p", "q"}, "SCAN", "k", "WHERE", "g", "-inf", "+inf", "IDS"),
+			expectIDs([]string{"p", "q"}, "SCAN", "k", "WHERE", "g", "(nan", "+inf", "IDS"),
+			expectInt(1, "SCAN", "k", "WHERE", "g", "10", "20", "COUNT"),
+		)
+	})
+	// fixed 75824dd: the COUNT shortcut overflowed for cursors >= 2^63
+	probe(t, c, findCurOver, func() string {
+		must(t, "FLUSHDB")
+		for _, id := range []string{"a", "b", "c", "d", "e", "f", "g", "h"} {
+			must(t, "SET", "k", id, "STRING", "v"+id)
+		}
+		msgs := []string{}
+		for _, cur := range []string{"18446744073709550616", "9223372036854775808", "18446744073709551615", "9223372036854775807", "4294967296"} {
+			msgs = append(msgs,
+				expectInt(0, "SCAN", "k", "CURSOR", cur, "COUNT"),
+				expectIDs([]string{}, "SCAN", "k", "CURSOR", cur, "IDS"),
+				expectInt(0, "SEARCH", "k", "CURSOR", cur, "COUNT"),
+				expectIDs([]string{}, "SEARCH", "k", "CURSOR", cur, "IDS"))
+		}
+		msgs = append(msgs, expectInt(8, "SCAN", "k", "LIMIT", "18446744073709551615", "COUNT"),
+			expectInt(5, "SCAN", "k", "CURSOR", "3", "LIMIT", "9223372036854775808", "COUNT"))
+		return first(msgs...)
+	})
+	// fixed 964544a: dotted field names next to JSON-valued fields sharing the prefix
+	probe(t, c, findDotted, func() string {
+		must(t, "FLUSHDB")
+		must(t, "SET", "k", "hid", "FIELD", "a-", `{"x":1}`, "FIELD", "a.x", "5", "POINT", "1", "1")
+		must(t, "SET", "k", "doc", "FIELD", "a", `{"x":5,"b":{"x":7}}`, "POINT", "1", "1")
+		must(t, "SET", "k", "own", "FIELD", "a.b", `{"x":7}`, "POINT", "1", "1")
+		must(t, "SET", "k", "both", "FIELD", "a", `{"y":1}`, "FIELD", "a.x", "5", "POINT", "1", "1")
+		return first(
+			expectIDs([]string{"both", "doc", "hid"}, "SCAN", "k", "WHERE", "a.x", "5", "5", "IDS"),
+			expectIDs([]string{"both", "doc", "hid"}, "SCAN", "k", "WHERE", "a.x", "==", "5", "IDS"),
+			expectIDs([]string{"doc"}, "SCAN", "k", "WHERE", "a.b.x", "==", "7", "IDS"),
+			expectIDs([]string{"doc", "own"}, "SCAN", "k", "WHERE", "a.b", "==", `{"x":7}`, "IDS"),
+			expectIDs([]string{"doc", "own"}, "SCAN", "k", "WHERE", "a.b", "!=", "0", "IDS"),
+			expectIDs([]string{"hid"}, "SCAN", "k", "WHEREIN", "a-", "1", `{"x":1}`, "IDS"),
+		)
+	})
 	// suspected: limits when the literal prefix ends in byte 0xff
 	probe(t, c, findFF, func() string {
 		must(t, "FLUSHDB")
